@@ -113,17 +113,15 @@ theorem lastIdxForTerm_eq (h : b.Inv) (t : Nat) : b.lastIdxForTerm t = b.abs.las
 
 theorem insertToMemory (h : b.Inv) {k : Nat} {es : List Entry} (hc : contigFrom k es = true)
     (hpos : termsPos es = true) (habove : ∀ x ∈ b.mem, x.index < k)
-    (hnext : b.mem ≠ [] → k = lastIdx b.mem + 1) (hanchor : b.mem = [] → k = b.purgedI + 1)
-    (hb : b.segs.arch.length + es.length ≤ maxSegs) :
+    (hnext : b.mem ≠ [] → k = lastIdx b.mem + 1) (hanchor : b.mem = [] → k = b.purgedI + 1) :
     (b.insertToMemory es).Inv ∧ (b.insertToMemory es).abs = b.abs.append es ∧
-    (b.insertToMemory es).segs.arch.length ≤ b.segs.arch.length + es.length ∧
     (b.insertToMemory es).durable = b.durable := by
   have hmem : insertAll b.mem es = b.mem ++ es := insertAll_above habove hc
   have hidx := exact_append h.tf h.tl habove hc
-  have hseg := h.seg.onAppend h.pos habove hc hpos hb
+  have hseg := h.seg.onAppend h.pos habove hc hpos
   have hposes : ∀ e ∈ es, 0 < e.term := by
     intro e he; simpa [termsPos] using (List.all_eq_true.mp hpos) e he
-  refine ⟨?_, ?_, ?_, ?_⟩
+  refine ⟨?_, ?_, ?_⟩
   · -- invariant
     by_cases hes : es = []
     · subst hes
@@ -189,9 +187,8 @@ theorem insertToMemory (h : b.Inv) {k : Nat} {es : List Entry} (hc : contigFrom 
           simp [this]
       · simpa [Buf.insertToMemory, hmem] using hidx.1
       · simpa [Buf.insertToMemory, hmem] using hidx.2
-      · simpa [Buf.insertToMemory, hmem] using hseg.1
+      · simpa [Buf.insertToMemory, hmem] using hseg
   · simp [Buf.insertToMemory, Buf.abs, Plain.append, hmem]
-  · simpa [Buf.insertToMemory] using hseg.2
   · simp [Buf.insertToMemory]
 
 /-! ### `remove_range` -/
@@ -314,18 +311,16 @@ theorem purgeMem (h : b.Inv) {ci : Nat} (ct : Nat) (hci : b.purgedI ≤ ci) :
     · rw [fm, fs]; exact hseg
   · simp [Buf.abs, Plain.purge, fm, hmem, fpi, fpt]
 
-theorem resetMem (h : b.Inv) : b.resetMem.Inv ∧ b.resetMem.abs = b.abs.reset ∧ b.resetMem.segs.arch.length = 0 := by
-  refine ⟨?_, by simp [Buf.resetMem, Buf.abs, Plain.reset], by simp [Buf.resetMem]⟩
+theorem resetMem (h : b.Inv) : b.resetMem.Inv ∧ b.resetMem.abs = b.abs.reset := by
+  refine ⟨?_, by simp [Buf.resetMem, Buf.abs, Plain.reset]⟩
   exact { contig := rfl, pos := by simp [Buf.resetMem], anchor := by simp [Buf.resetMem], minOk := rfl, maxOk := rfl,
           tf := fun _ => rfl, tl := fun _ => rfl, seg := SegInv.empty }
 
 /-- the conflict branch: truncate from `d` (an index inside the log), insert the new tail that starts at `d` -/
 theorem replaceMem (h : b.Inv) {d : Nat} {tail : List Entry} (hd1 : b.minIdx ≤ d) (hd2 : d ≤ b.maxIdx)
-    (hne : b.mem ≠ []) (hc : contigFrom d tail = true) (hpos : termsPos tail = true)
-    (hb : b.segs.arch.length + tail.length ≤ maxSegs) :
+    (hne : b.mem ≠ []) (hc : contigFrom d tail = true) (hpos : termsPos tail = true) :
     (b.replaceMem d tail).Inv ∧
-    (b.replaceMem d tail).abs = { b.abs with ents := b.mem.filter (fun e => decide (e.index < d)) ++ tail } ∧
-    (b.replaceMem d tail).segs.arch.length ≤ b.segs.arch.length + tail.length := by
+    (b.replaceMem d tail).abs = { b.abs with ents := b.mem.filter (fun e => decide (e.index < d)) ++ tail } := by
   obtain ⟨hinv, hmem, hsegs, hpi, hpt, _⟩ := h.removeFrom d
   -- the intermediate state after the two stores to next_id / durable_index
   let b1 : Buf := { b.removeFrom d with nextId := d, durable := min (b.removeFrom d).durable (d - 1) }
@@ -355,19 +350,14 @@ theorem replaceMem (h : b.Inv) {d : Nat} {tail : List Entry} (hd1 : b.minIdx ≤
         show d = b1.purgedI + 1
         have : b1.purgedI = b.purgedI := hpi
         omega)
-    (by show b1.segs.arch.length + tail.length ≤ maxSegs
-        have : b1.segs = b.segs := hsegs
-        rw [this]; exact hb)
   have heq : b.replaceMem d tail = b1.insertToMemory tail := rfl
   rw [heq]
-  refine ⟨hins.1, ?_, ?_⟩
-  · rw [hins.2.1]
-    simp only [Buf.abs, Plain.append, hb1mem]
-    have h1 : b1.purgedI = b.purgedI := hpi
-    have h2 : b1.purgedT = b.purgedT := hpt
-    simp [h1, h2]
-  · have : b1.segs = b.segs := hsegs
-    rw [← this]; exact hins.2.2.1
+  refine ⟨hins.1, ?_⟩
+  rw [hins.2.1]
+  simp only [Buf.abs, Plain.append, hb1mem]
+  have h1 : b1.purgedI = b.purgedI := hpi
+  have h2 : b1.purgedT = b.purgedT := hpt
+  simp [h1, h2]
 
 end Buf.Inv
 
